@@ -1,5 +1,6 @@
 (** C04 — Every recorded position designates the token it documents. *)
-From GoSh Require Import Base.Bytes Base.Utf8 Lex.Cursor Ast.Ends.
+From GoSh Require Import Base.Bytes Base.Utf8 Lex.Cursor Ast.Ends Ast.Closers.
+From GoShGen Require Import Extracted.
 
 (** The line/column bookkeeping of read(): after consuming any rune sequence the cursor is the
     character position that follows it (lines and columns count characters, not bytes; a newline
@@ -64,6 +65,23 @@ Theorem C04_decode_after_encode :
 Proof. exact decode_encode. Qed.
 Print Assumptions C04_decode_after_encode.
 
+(** The nodes that end with a closing token (subshell, group, arithmetic evaluation, for, case, if,
+    while, until, command substitution, arithmetic expansion): End() is the stored position of that
+    token shifted by a constant.  The constants are read from ast.go on every run
+    ([Extracted.end_shifts]); each is the length of the token's spelling, so End() is the position
+    that follows the closing token. *)
+Theorem C04_closing_token_shifts : shifts_ok = true.
+Proof. exact closing_token_shifts. Qed.
+Print Assumptions C04_closing_token_shifts.
+
+Theorem C04_end_follows_the_closing_token :
+  forall ty fld n (pos : P) c,
+    In (ty, fld, n) Extracted.end_shifts -> closer_of ty fld closers = Some c ->
+    forallb (fun r => negb (N.eqb r 10)) c = true ->
+    shift pos n = after pos c.
+Proof. exact end_after_closing_token. Qed.
+Print Assumptions C04_end_follows_the_closing_token.
+
 (** Not proved: that each of the ~40 mark() call sites uses the offset of the token it documents,
-    and the derived Pos()/End() methods of the command nodes of ast.go (those of the word parts are above).  Decided on every run by the intrinsic checker on
+    and the Pos()/End() methods of the command nodes that are computed from their children (those of the word parts and of the nodes ending with a closing token are above).  Decided on every run by the intrinsic checker on
     the implementation's (source, AST) pairs.  Known finding F28 (here-document extent) is listed. *)
